@@ -246,6 +246,16 @@ Definition per_step (s : per) (o : pop) : per * bool :=
 
 Definition per_run (m : nat) (ops : list pop) : per :=
   fold_left (fun s o => fst (per_step s o)) ops (per_init m).
+
+(* the behaviour BEFORE fix e4816a7: clear() was inherited from ReplayBuffer and reset only
+   _size/_cursor/_storage; trees, tree_ptr and max_priority survived. Kept for the refutation. *)
+Definition per_clear_pinned (s : per) : per :=
+  {| max_size := max_size s; tcap := tcap s; size := 0; cursor := 0;
+     tree_ptr := tree_ptr s; max_prio := max_prio s; sumt := sumt s; mint := mint s |}.
+Definition per_step_pinned (s : per) (o : pop) : per * bool :=
+  match o with Clear => (per_clear_pinned s, false) | _ => per_step s o end.
+Definition per_run_pinned (m : nat) (ops : list pop) : per :=
+  fold_left (fun s o => fst (per_step_pinned s o)) ops (per_init m).
 End PER.
 
 Arguments Add {C}. Arguments Update {C}. Arguments Sample {C}. Arguments Clear {C}.
